@@ -48,7 +48,7 @@ func (c16Prop) Count(tier string) int {
 
 func (c16Prop) Rule() string {
 	return "plan = history over the public writing API (NewEncoderFor + Encode/Flush sequence, or NewFileWriter + WriteHeader + WriteBlock*), codec, block size, seeded values, pinned sync marker. " +
-		"For every plan the fault-free run gives F and W; then EVERY write index k in 0..W-1 is failed in 4 variants (error with 0 bytes; short write of 1, len/2, len-1 bytes): one execution = one faulted re-run. " +
+		"For every plan the fault-free run gives F and W; then EVERY write index k in 0..W-1 is failed in 5 variants (error with 0 bytes; short write of 1, len/2, len-1 bytes; error reported after all bytes were taken): one execution = one faulted re-run. " +
 		"Non-trivial = the fault fired inside a call. distinct_nontrivial counts distinct (API, call kind, role of the failed write: header/count/length/payload/sync, fault variant, codec) signatures."
 }
 
@@ -200,7 +200,7 @@ func (c16Prop) Execute(p *Plan, run *Run) any {
 	faults := pl.Faults
 	if faults == nil {
 		for k := 0; k < W; k++ {
-			faults = append(faults, WFault{Kind: "err", K: k}, WFault{Kind: "short", K: k, Short: 1}, WFault{Kind: "short", K: k, Short: base.Lens[k] / 2}, WFault{Kind: "short", K: k, Short: -1})
+			faults = append(faults, WFault{Kind: "err", K: k}, WFault{Kind: "short", K: k, Short: 1}, WFault{Kind: "short", K: k, Short: base.Lens[k] / 2}, WFault{Kind: "short", K: k, Short: -1}, WFault{Kind: "fullerr", K: k})
 		}
 	}
 	off := make([]int, W+1)
